@@ -629,3 +629,20 @@ Qed.
 (* for EVERY token type the implementation's table and the frozen table give the same binding strength *)
 Theorem prec_table_is_reference : forall t : Z, prec_lookup Gen_Prec.precedences t = prec_lookup ref_prec t.
 Proof. intros t. apply prec_lookup_agree. exact (proj1 prec_table_frozen). Qed.
+
+(* ================================================================== runes *)
+(* on ASCII strings the runes are the bytes (first / rest / for then work bytewise) *)
+Lemma runes_fuel_ascii : forall s fuel, all_ascii s = true -> (length s <= fuel)%nat ->
+  runes_fuel fuel s = map (fun c => [c]) s.
+Proof.
+  induction s as [|c r IH]; intros fuel Ha Hl; [destruct fuel; reflexivity|].
+  destruct fuel as [|f]; [simpl in Hl; lia|].
+  simpl in Ha. apply andb_true_iff in Ha. destruct Ha as [Hc Hr].
+  simpl. unfold split_rune. simpl. rewrite Hc. simpl. f_equal. apply IH; [exact Hr|simpl in Hl; lia].
+Qed.
+
+Lemma runes_ascii : forall s, all_ascii s = true -> runes s = map (fun c => [c]) s /\ reencode s = s.
+Proof.
+  intros s H. unfold reencode, runes. rewrite (runes_fuel_ascii s (length s) H (le_n _)). split; [reflexivity|].
+  clear H. induction s; simpl; [reflexivity|]. f_equal. exact IHs.
+Qed.
